@@ -104,15 +104,13 @@ def altLens : Nat → List TplItem → List Char → List Nat
   | fuel+1, a :: as, s => itemLens fuel a s ++ altLens fuel as s
 end
 
-/-- does some prefix of `s` match the whole item sequence? -/
-def seqMatchesPrefix (fuel : Nat) : List TplItem → List Char → Bool
-  | [], _ => true
-  | it :: rest, s => (itemLens fuel it s).any fun n => seqMatchesPrefix fuel rest (s.drop n)
+/-- does the WHOLE of `s` match the item sequence? -/
+def seqMatchesAll (fuel : Nat) : List TplItem → List Char → Bool
+  | [], s => s.isEmpty
+  | it :: rest, s => (itemLens fuel it s).any fun n => seqMatchesAll fuel rest (s.drop n)
 
-/-- `new RegExp(regex_expr(tpl)).test(s)`: a match may start anywhere (no anchors are emitted) -/
-def test (tpl : Tpl) (s : String) : Bool :=
-  let cs := s.toList
-  (List.range (cs.length + 1)).any fun i => seqMatchesPrefix 64 tpl (cs.drop i)
+/-- `new RegExp("^(?:" + regex_expr(tpl) + ")$").test(s)` (RegexRuntype anchors the emitted expression) -/
+def test (tpl : Tpl) (s : String) : Bool := seqMatchesAll 64 tpl s.toList
 
 end Tpl
 end BeffVerif
